@@ -676,7 +676,7 @@ Section Proofs.
   Proof. split; reflexivity. Qed.
 
   (* ---------------------------------------------------------------------- *)
-  (* honest histories: the pinned and the fixed variant coincide               *)
+  (* honest histories: the pre-repair and the fixed variant coincide           *)
 
   Definition honest_b (i : ident) : bool := idecl i =? idk (ikey i).
 
@@ -969,7 +969,7 @@ Section Proofs.
     check_hist idk (combine ops (outs true ops)) = [].
   Proof. unfold check_hist, Peers.outs. apply sim_walk. exact sim_init. Qed.
 
-  (* ... and so does the pinned variant on every history in which nobody lies
+  (* ... and so does the pre-repair variant on every history in which nobody lies
      about the ID field (neither a dialling peer nor the caller of set) *)
   Theorem pinned_model_satisfies_property_when_honest ops :
     forallb op_honest ops = true ->
@@ -989,7 +989,7 @@ Section Proofs.
 End Proofs.
 
 (* -------------------------------------------------------------------------- *)
-(* F25: the pinned variant is refuted                                          *)
+(* F25: the pre-repair variant ([fix_f25 = false]) is refuted                  *)
 
 Definition f25_witness : list op :=
   [ OSet ERouter (DRaw []) [mkIdent 0 1];   (* the only valid peer: key 0 (id 1) *)
